@@ -277,6 +277,11 @@ class ChecksumMonitor(Monitor):
                         try:
                             got = w.vfs_a.calculate_checksum(c.ck, Path(w.src_path), size, chunk)
                             ok = w.vfs_a.verify_checksum(bytes.fromhex(want), c.ck, Path(w.src_path), size, chunk)
+                            # ... and a checksum that is NOT the file's must be refused, whatever the type (also the null type:
+                            # its checksum is four zero bytes)
+                            wrong = bytes(b ^ 0x5A for b in bytes.fromhex(want))
+                            if w.vfs_a.verify_checksum(wrong, c.ck, Path(w.src_path), size, chunk) is not False:
+                                w.violate("C09.verify_accepts_wrong_checksum", f"ck={c.ck.name} vfs={c.vfs}", f"size={size} supplied={wrong.hex()} file's={want}")
                         except Exception as e:  # noqa: BLE001
                             w.violate("C09.calculate_raises", f"{type(e).__name__} ck={c.ck.name}", f"size={size} chunk={chunk}")
                         else:
